@@ -94,7 +94,7 @@ def main():
                     % (r.get('skipped'),),
             'bound': '%d trees' % r['evaluations'],
             'evaluations': r['evaluations'],
-            'distinct_nontrivial': r['evaluations']})
+            'distinct_nontrivial': r.get('distinct_nontrivial', 0)})
         if r['witness']:
             chk.report_violation('bounded.tree_roundtrip',
                                  {'witness': r['witness']}, True,
